@@ -39,21 +39,16 @@ theorem succ_mul_B (i : Nat) (B : Int) : ((i + 1 : Nat) : Int) * B = (i : Int) *
 theorem env_num (E : I32Env sc cl x y B) : Num sc cl B (mxLen x y * B) := by
   obtain ⟨hB1, _, _, hgo, hge, hxp, hxs, hyp, hys, hroom⟩ := E
   have hM0 : (0 : Int) ≤ mxLen x y := by unfold mxLen; omega
-  have h1 : (mxLen x y + 1) * B ≤ (((max (max x.length y.length) 2 : Nat) : Int) + 1) * B :=
-    Int.mul_le_mul_of_nonneg_right (by unfold mxLen; omega) (by omega)
-  have h2 : ((2 : Int) + 1) * B ≤ (((max (max x.length y.length) 2 : Nat) : Int) + 1) * B :=
-    Int.mul_le_mul_of_nonneg_right (by omega) (by omega)
-  rw [Int.add_mul, Int.one_mul] at h1
-  refine ⟨hB1, hgo, hge, hxp, hxs, hyp, hys, Int.mul_nonneg hM0 (by omega), by omega, by omega⟩
+  have e3 : ((max x.length y.length : Nat) : Int) = mxLen x y := rfl
+  rw [e3, Int.add_mul, Int.one_mul] at hroom
+  exact ⟨hB1, hgo, hge, hxp, hxs, hyp, hys, Int.mul_nonneg hM0 (by omega), hroom⟩
 
 theorem env_idx (E : I32Env sc cl x y B) {k : Nat} (h1 : 1 ≤ k) (hk : k ≤ max x.length y.length) :
     Idx sc B (mxLen x y * B) k := by
   obtain ⟨hB1, _, _, hgo, hge, hxp, hxs, hyp, hys, hroom⟩ := E
   have hms := minScore_i32
-  have hM0 : (0 : Int) ≤ mxLen x y := by unfold mxLen; omega
-  have hroom' : (mxLen x y + 1) * B ≤ (((max (max x.length y.length) 2 : Nat) : Int) + 1) * B :=
-    Int.mul_le_mul_of_nonneg_right (by unfold mxLen; omega) (by omega)
-  rw [Int.add_mul, Int.one_mul] at hroom'
+  have e3 : ((max x.length y.length : Nat) : Int) = mxLen x y := rfl
+  rw [e3, Int.add_mul, Int.one_mul] at hroom
   have hM1 : (1 : Int) ≤ mxLen x y := by unfold mxLen; omega
   have hkM : (k : Int) ≤ mxLen x y := by unfold mxLen; omega
   have hBG : 1 * B ≤ mxLen x y * B := Int.mul_le_mul_of_nonneg_right hM1 (by omega)
@@ -64,6 +59,14 @@ theorem env_idx (E : I32Env sc cl x y B) {k : Nat} (h1 : 1 ≤ k) (hk : k ≤ ma
   have e1 : -B * (k : Int) = -((k : Int) * B) := by rw [Int.neg_mul, Int.mul_comm]
   have e2 : mxLen x y * 1 = mxLen x y := Int.mul_one _
   refine ⟨by omega, by omega, by omega, ofUsize_ok (by omega)⟩
+
+/-- `3·B` fits below the sentinel as soon as one of the sequences has two symbols -/
+theorem env_three (E : I32Env sc cl x y B) (h2 : 2 ≤ max x.length y.length) : 3 * B ≤ 2147483648 + minScore := by
+  have hroom := E.room
+  have hB1 := E.B1
+  have : ((2 : Int) + 1) * B ≤ (((max x.length y.length : Nat) : Int) + 1) * B :=
+    Int.mul_le_mul_of_nonneg_right (by omega) (by omega)
+  omega
 
 theorem mem_getD {l : List Nat} {i : Nat} (hi : i < l.length) : l.getD i 0 ∈ l := by
   rw [List.getD_eq_getElem?_getD, List.getElem?_eq_getElem hi]; exact List.getElem_mem hi
@@ -153,9 +156,20 @@ theorem colStepC_eq (E : I32Env sc cl x y B) (j : Nat) (hj : j + 1 ≤ y.length)
   rw [succ_mul_B] at hp hle
   have hmx : x.getD t 0 ∈ x := mem_getD (by omega)
   have hmy : y.getD j 0 ∈ y := mem_getD (by omega)
-  exact stepJC_eq N I J _ _ (Int.mul_nonneg (by omega) (by omega)) hle
+  refine stepJC_eq N I J _ _ (Int.mul_nonneg (by omega) (by omega)) hle
     (cell_RB E (j + 1) (by omega) t (by omega)) (by simpa [cell] using hp1) (by simpa [cell] using hp)
-    ⟨by simpa using E.wlo _ hmx _ hmy, by simpa using E.whi _ hmx _ hmy⟩
+    ⟨by simpa using E.wlo _ hmx _ hmy, by simpa using E.whi _ hmx _ hmy⟩ ?_
+  -- `I[curr][i-1] + gap_extend` and `D[prev][i] + gap_extend` reach `MIN_SCORE − 3B` only from a row / column `≥ 1`
+  by_cases hM : 2 ≤ max x.length y.length
+  · exact Or.inl (env_three E hM)
+  · right
+    have ht : t = 0 := by omega
+    have hj0 : j = 0 := by omega
+    subst ht; subst hj0
+    constructor
+    · rw [cell_succ_zero]; rfl
+    · show (cell sc cl x y 0 1).d = minScore
+      rw [cell_zero_succ _ _ _ _ _ (by omega)]; rfl
 
 theorem colsC_eq (E : I32Env sc cl x y B) : ∀ k j, j + k ≤ y.length →
     colsC sc cl x y k j (colAt sc cl x y j) = some (iter (colStep sc cl x y) k j (colAt sc cl x y j)) := by
